@@ -598,3 +598,40 @@ def folder_pred_eval(e: ast.AST, files_none: bool, skip: bool, selected: bool):
     if isinstance(e, ast.IfExp):
         return folder_pred_eval(e.body if folder_pred_eval(e.test, files_none, skip, selected) else e.orelse, files_none, skip, selected)
     raise Unknown(norm(e))
+
+
+def body_as_expr(fn_node: ast.AST) -> Optional[ast.AST]:
+    """the value a small pure function returns, as ONE expression: straight-line assignments of locals are substituted, `if c: return a` + rest becomes
+    `a if c else <rest>`.  None when the body holds anything else (loops, calls for effect, augmented assignments)."""
+    import copy
+
+    def subst(e: ast.AST, env: Dict[str, ast.AST]) -> ast.AST:
+        class S(ast.NodeTransformer):
+            def visit_Name(self, n):
+                return copy.deepcopy(env[n.id]) if isinstance(n.ctx, ast.Load) and n.id in env else n
+        return S().visit(copy.deepcopy(e))
+
+    def conv(stmts: List[ast.stmt], env: Dict[str, ast.AST]) -> Optional[ast.AST]:
+        if not stmts:
+            return None
+        st, rest = stmts[0], stmts[1:]
+        if isinstance(st, ast.Expr) and isinstance(st.value, ast.Constant):
+            return conv(rest, env)
+        if isinstance(st, (ast.Assign, ast.AnnAssign)):
+            tgts = st.targets if isinstance(st, ast.Assign) else [st.target]
+            if len(tgts) == 1 and isinstance(tgts[0], ast.Name) and st.value is not None:
+                env2 = dict(env)
+                env2[tgts[0].id] = subst(st.value, env)
+                return conv(rest, env2)
+            return None
+        if isinstance(st, ast.Return):
+            return subst(st.value, env) if st.value is not None else ast.Constant(value=None)
+        if isinstance(st, ast.If):
+            a = conv(st.body + rest, dict(env))
+            b = conv(st.orelse + rest, dict(env))
+            if a is None or b is None:
+                return None
+            return ast.IfExp(test=subst(st.test, env), body=a, orelse=b)
+        return None
+    e = conv(list(fn_node.body), {})
+    return ast.fix_missing_locations(e) if e is not None else None
